@@ -153,6 +153,8 @@ type Cfg struct {
 	TE       bool   `json:"te"`
 	Dev      bool   `json:"dev"`
 	OIDCErrs bool   `json:"oidcErrs"` // the storage reports an unknown client as *oidc.Error
+	LiveRT   bool   `json:"liveRT"`   // the storage's RefreshTokenRequest is a live view of the stored grant
+	NoKeyUse bool   `json:"noKeyUse"` // the storage's public keys carry no "use"
 	Dyn      bool   `json:"dyn"`      // issuer derived from the request host (op.IssuerFromHost): several tenants on one provider
 	Alg      string `json:"alg"`
 	SessSt   string `json:"sessionState"`
@@ -213,6 +215,7 @@ func BuildProvider(store *modelstore.Store, cfg Cfg, extra ...op.Option) (http.H
 	}
 	store.SessionState = cfg.SessSt
 	store.NotFoundAsOIDC = cfg.OIDCErrs
+	store.LiveRefresh, store.KeyUseAbsent = cfg.LiveRT, cfg.NoKeyUse
 	store.Policy = modelstore.TEPolicy{Deny: cfg.Policy.Deny, Impersonate: cfg.Policy.Imp, DropScope: cfg.Policy.Drop}
 	if cfg.Policy.DefType != "" {
 		store.Policy.DefaultType = oidc.TokenType(tokenTypeURN[cfg.Policy.DefType])
